@@ -34,6 +34,7 @@ func wgModels(ctx *core.Ctx, f func(i int, tm gen.Tagged) bool) {
 		}
 	}
 	extra := gen.TTUDefectModels()
+	extra = append(extra, gen.InterlockModels()...)
 	nSpecial := len(extra)
 	extra = append(extra, gen.ThreeRelModels(ctx.Thorough())...)
 	extra = append(extra, gen.NestedModels()...)
@@ -56,7 +57,7 @@ func wgModels(ctx *core.Ctx, f func(i int, tm gen.Tagged) bool) {
 
 const wgRule = "graph-model alphabet: types user, group (terminal), folder {a: [user], b: [group, user:*]}, doc {a, b, p} with a and b ranging over every leaf " +
 	"(direct assignment with 3 (quick) / 11 (thorough) restriction lists incl. wildcards, conditions, usersets of self/other/folder; computed self/other; TTU self/other over p) " +
-	"and every union / intersection / exclusion of two leaves, x 3 tupleset variants p in {[doc],[folder],[doc,folder]}; plus three-relation models rich in cycles and nested / three-operand rewrites " +
+	"and every union / intersection / exclusion of two leaves, x 3 tupleset variants p in {[doc],[folder],[doc,folder]}; plus the TTU-defect family, the interlocking-cycles family (direct assignments mixing a terminal type, the relation's own userset and its neighbours' usersets in every order, with and without TTUs; two and three relations), three-relation models rich in cycles and nested / three-operand rewrites " +
 	"(quick: every 4th). Each model is built under every map-iteration schedule within the budgets: depth-first start orders fully permuted for graphs with <= 5 (quick) / <= 6 (thorough) relation and operator nodes " +
 	"(type and wildcard nodes pinned last there), every single root deviation (quick) / every pair (thorough) otherwise; every single inner-map deviation; thorough: one root x one inner deviation and two inner deviations. "
 
